@@ -1486,6 +1486,20 @@ fn parse_unary_expression(tokens: &mut Tokens) -> Result<Expression, Error>
 						location,
 					})
 				}
+				Expression::BitIntegerLiteral {
+					value,
+					value_type: value_type @ (None | Some(Ok(ValueType::Int128))),
+					location: _,
+				} if value == (i128::MAX as u128) + 1 =>
+				{
+					// The value 2^127 does not fit a signed literal on its own,
+					// but its negative is the minimum of i128.
+					Ok(Expression::SignedIntegerLiteral {
+						value: i128::MIN,
+						value_type,
+						location,
+					})
+				}
 				expr =>
 				{
 					let expression = Expression::Unary {
